@@ -545,7 +545,17 @@ impl EdgeDeletionEntry {
             dest=? AND 
             cdate=?";
         let mut stmt = conn.prepare_cached(query)?;
+        //the rights are checked in the room named by the deletion: it must be the room of the source row
+        let mut source_room_stmt = conn.prepare_cached("SELECT room_id FROM _node WHERE id=?")?;
         for e in edges {
+            let source_room: Option<Option<Uid>> = source_room_stmt
+                .query_row([&e.src], |row| row.get(0))
+                .optional()?;
+            if let Some(source_room) = source_room {
+                if source_room != Some(e.room_id) {
+                    continue;
+                }
+            }
             let rs: Option<Vec<u8>> = stmt
                 .query_row(
                     (&e.src, &e.src_entity, &e.label, &e.dest, &e.cdate),
